@@ -495,9 +495,6 @@ class CliRun:
     pass
 
 
-_MP = []
-
-
 def _main_program(resolver):
     import io
     from exactly_lib.cli import main_program
